@@ -13,13 +13,14 @@ import mdtraj as md
 from bcc.api import Check
 from bcc.fixtures import Scratch, make_traj
 
-FORMATS = ["h5", "xtc", "trr", "dcd", "nc", "mdcrd", "xyz", "lammpstrj", "dtr", "xyz.gz"]
+# "dcd:nset0" = a DCD whose header frame-count field (NSET) is 0: legal, the reader derives the count from the file size
+FORMATS = ["h5", "xtc", "trr", "dcd", "dcd:nset0", "nc", "mdcrd", "xyz", "lammpstrj", "dtr", "xyz.gz"]
 # `len, where offered`: mdcrd and lammpstrj define __len__ only to raise NotImplementedError (not offered)
 NO_LEN = {"mdcrd", "lammpstrj"}
 CLASSNAME = {"h5": "HDF5TrajectoryFile", "nc": "NetCDFTrajectoryFile", "xtc": "XTCTrajectoryFile",
              "trr": "TRRTrajectoryFile", "dcd": "DCDTrajectoryFile", "mdcrd": "MDCRDTrajectoryFile",
              "xyz": "XYZTrajectoryFile", "xyz.gz": "XYZTrajectoryFile", "lammpstrj": "LAMMPSTrajectoryFile",
-             "dtr": "DTRTrajectoryFile"}
+             "dtr": "DTRTrajectoryFile", "dcd:nset0": "DCDTrajectoryFile"}
 
 
 def _open(path, fmt, n_atoms):
@@ -73,6 +74,20 @@ def apply(handle, fmt, op, pos, N, atom_indices=None):
         return int(handle.tell()), new, new
 
 
+def _make_file(d, t, N, fmt, tag="t"):
+    ext = fmt.split(":")[0]
+    path = os.path.join(d, f"{tag}{N}{'-nset0' if ':' in fmt else ''}.{ext}")
+    try:
+        t.save(path)
+        if fmt == "dcd:nset0":
+            with open(path, "r+b") as fh:
+                fh.seek(8)
+                fh.write(b"\0\0\0\0")
+    except Exception:
+        return None
+    return path
+
+
 def run(tier, seed, hint):
     L = 3 if tier == "quick" else 4
     Ns = [4] if tier == "quick" else [1, 3, 6]
@@ -85,10 +100,8 @@ def run(tier, seed, hint):
         for fmt in FORMATS:
             for N in Ns:
                 t = make_traj(n_frames=N, n_atoms=4, cell="ortho", seed=seed)
-                path = os.path.join(d, f"t{N}.{fmt}")
-                try:
-                    t.save(path)
-                except Exception as e:  # saving is not what is under test here
+                path = _make_file(d, t, N, fmt)
+                if path is None:  # saving is not what is under test here
                     continue
                 ops = ops_alphabet(N, fmt)
                 for length in range(1, L + 1):
@@ -245,8 +258,7 @@ def replay(payload):
     chk = Check("replay", "", "", "")
     with Scratch("c18r") as d:
         t = make_traj(n_frames=N, n_atoms=4, cell="ortho", seed=0)
-        path = os.path.join(d, f"t{N}.{fmt}")
-        t.save(path)
+        path = _make_file(d, t, N, fmt)
         seq = [tuple(o) for o in inp["ops"]]
         if inp.get("two_handles"):
             _run_two(chk, path, fmt, N, seq)
@@ -281,8 +293,7 @@ def concretise(req):
     chk = Check("concretise", "", "", "")
     with Scratch("c18c") as d:
         t = make_traj(n_frames=N, n_atoms=4, cell="ortho", seed=0)
-        path = os.path.join(d, f"t{N}.{fmt}")
-        t.save(path)
+        path = _make_file(d, t, N, fmt)
         _run_seq(chk, path, fmt, N, tuple(ops), None)
     if chk.failures:
         f = chk.failures[0]
